@@ -90,7 +90,8 @@ Inductive op :=
 | ObserveResult (nonce : Z) (ok : bool) (h : Z)
 | ExecResult (e : Z)
 | NextBlock
-| SetParams (p : params).
+| SetParams (p : params)
+| Migrate.
 
 (* ---------- result monad: Go error (tx reverted) / Go panic (tx reverted) ---------- *)
 Inductive R (A : Type) := ROk (a : A) | RErr | RPanic.
@@ -555,6 +556,13 @@ Definition exec (s : state) (o : op) : R (state * list event) :=
                      ROk (set_prm s {| p_batch_timeout := p_batch_timeout p; p_avg_block := p_avg_block p; p_avg_ext := p_avg_ext p;
                                         p_call_timeout := p_call_timeout p; p_max_elems := p_max_elems (prm s) |}, [])
                    else RErr
+  (* keeper/migrations.go Migrator.Migrate (run by the v8 upgrade for every crosschain module): rewrites the parameters
+     BridgeCallTimeout := DefBridgeCallTimeout, BridgeCallMaxGasLimit, the two pending flags — through SetParams — and
+     touches nothing else *)
+  | Migrate =>
+      let p := {| p_batch_timeout := p_batch_timeout (prm s); p_avg_block := p_avg_block (prm s); p_avg_ext := p_avg_ext (prm s);
+                  p_call_timeout := 604800000; p_max_elems := p_max_elems (prm s) |} in
+      if params_ok p then ROk (set_prm s p, []) else RErr
   end.
 
 (* a failed or panicking transaction leaves no trace (cache branch discarded) *)
